@@ -6,7 +6,7 @@
    inside a transaction. *)
 From Coq Require Import ZArith List Bool.
 From Model Require Import PyBase Cache.
-From Proofs Require Import CacheProofs CacheWf CacheCopy CacheCoh CacheWorld CacheUnion CacheTheorems CacheUsable CacheExamples CacheTxn CacheFresh CacheFreshOps CacheFreshWorld CacheFreshUnion CacheFreshSplit CacheInj CacheInjOps CacheInjWorld CacheFreshPatch CacheFreshFull CacheStereo CacheTie CacheUsable2 CacheCopyTotal CacheUsable3.
+From Proofs Require Import CacheProofs CacheWf CacheCopy CacheCoh CacheWorld CacheUnion CacheTheorems CacheUsable CacheExamples CacheTxn CacheFresh CacheFreshOps CacheFreshWorld CacheFreshUnion CacheFreshSplit CacheInj CacheInjOps CacheInjWorld CacheFreshPatch CacheFreshFull CacheStereo CacheTie CacheUsable2 CacheCopyTotal CacheUsable3 CacheUsable4.
 Import ListNotations.
 Open Scope Z_scope.
 
@@ -282,3 +282,9 @@ Theorem C13_copy_enter_total : forall s, FW s -> o_backup (s_cur s) = None ->
   snd (step s OCopy) = None /\ snd (step s OEnter) = None.
 Proof. exact copy_enter_total. Qed.
 Print Assumptions C13_copy_enter_total.
+
+(* substructure (default and with kept hydrogens) and __and__ raise nothing for a non-empty selection of existing atoms *)
+Theorem C13_substructure_total : forall s ats, W s -> ats <> [] -> (forall x, In x ats -> In x (keys (o_atoms (s_cur s)))) ->
+  snd (step s (OSub ats)) = None /\ snd (step s (OAnd ats)) = None /\ snd (step s (OSubH ats)) = None.
+Proof. exact sub_editable. Qed.
+Print Assumptions C13_substructure_total.
